@@ -81,7 +81,7 @@ def predicates(password, sections, counts, set_threshold):
     for val, lab in sections:
         piece = password[pos:pos + len(val)]
         if lab[0] == 'W':
-            if piece.lower() != val and piece != val:
+            if c06.lower_ref(piece) != val and piece != val:
                 ok = False
         elif piece != val:
             ok = False
